@@ -98,3 +98,47 @@ def build_probes(name, probes, features="std,devices,dim_check_debug", extra_tom
         exe = os.path.join(d, "target", "debug", n)
         res[n] = (n not in failed) and os.path.exists(exe)
     return res, p.stdout, d
+
+
+C17_SRC = '''#![allow(unused)]
+use rrtk::*;
+trait Bar { fn v(&self) -> i64; fn s(&mut self, x: i64); }
+struct Foo(i64);
+impl Bar for Foo { fn v(&self) -> i64 { self.0 } fn s(&mut self, x: i64) { self.0 = x } }
+fn main() {
+    // Rc<RefCell>
+    let r = rc_ref_cell_reference(Foo(1));
+    let d = to_dyn!(Bar, r.clone());
+    d.borrow_mut().s(5);
+    assert_eq!(r.borrow().v(), 5);
+    r.borrow_mut().s(6);
+    assert_eq!(d.borrow().v(), 6);
+    // *const RwLock
+    let w = static_rw_lock_reference!(Foo, Foo(2));
+    let dw = to_dyn!(Bar, w.clone());
+    dw.borrow_mut().s(9);
+    assert_eq!(w.borrow().v(), 9);
+    // *mut T
+    let p = static_reference!(Foo, Foo(3));
+    let dp = to_dyn!(Bar, p.clone());
+    dp.borrow_mut().s(11);
+    assert_eq!(p.borrow().v(), 11);
+    println!("to_dyn ok");
+}
+'''
+
+def c17_caller_probes():
+    """to_dyn! called from crates that declare no features / only `alloc` / `alloc` and `std` themselves"""
+    res = {}
+    for name, feats in (("nofeat", ""), ("alloc_only", 'alloc = []\ndefault = ["alloc"]\n'), ("alloc_std", 'alloc = []\nstd = []\ndefault = ["alloc", "std"]\n')):
+        r, log, d = build_probes("c17_" + name, {"todyn": (C17_SRC, "run")}, features="std,dim_check_debug", extra_toml="[features]\n" + feats)
+        ok = r.get("todyn", False)
+        out = ""
+        if ok:
+            p = sh([os.path.join(d, "target", "debug", "todyn")], check=False, timeout=60)
+            ok = p.returncode == 0 and "to_dyn ok" in p.stdout
+            out = p.stdout[-400:]
+        else:
+            out = log[-600:]
+        res[name] = (ok, out, os.path.join(d, "src", "bin", "todyn.rs"))
+    return res
